@@ -49,16 +49,17 @@ func repoRoot() string {
 
 // engine is one harness invocation family of a property.
 type engine struct {
-	Harness   string   // directory under mc/harness
-	Overlay   string   // base | mux
-	Name      string   // --engine value (scenario family), "" = all
-	Shards    int      // number of worker processes (0 = 1)
-	Args      []string // extra args
-	Thorough  bool     // only in thorough tier
-	QuickOnly bool
-	Race      bool // build with the race detector, turn its reports into findings (free-running engines)
-	MemMB     int  // ulimit -v for the worker in MiB (0 = default 12288)
-	TimeoutS  int
+	Harness          string   // directory under mc/harness
+	Overlay          string   // base | mux
+	Name             string   // --engine value (scenario family), "" = all
+	Shards           int      // number of worker processes (0 = 1)
+	Args             []string // extra args
+	Thorough         bool     // only in thorough tier
+	QuickOnly        bool
+	Experiment       bool // runs only when named explicitly with --engine (never part of a check)
+	Race             bool // build with the race detector, turn its reports into findings (free-running engines)
+	MemMB            int  // ulimit -v for the worker in MiB (0 = default 12288)
+	TimeoutS         int
 	ThoroughTimeoutS int // worker timeout of the thorough tier when larger than the default hour
 }
 
@@ -451,6 +452,9 @@ func check(prop, tier string, spec propSpec, only string) int {
 			continue
 		}
 		if only != "" && e.Name != only && e.Harness != only {
+			continue
+		}
+		if e.Experiment && only != e.Name {
 			continue
 		}
 		race := e.Race
